@@ -160,20 +160,43 @@ def AfterCrash (s : FS) (p : Path) : Option Content → Prop
 
 /-! ## The writers -/
 
+/-- How `renameio.tempDir` ended. -/
+inductive ProbeOutcome where
+  /-- the rename succeeded: same mount, temporary files go to `os.TempDir()` -/
+  | sameMount
+  /-- the rename failed (EXDEV): temporary files go next to the destination -/
+  | otherMount
+  /-- no test file could be created in `os.TempDir()`: no successful syscall at
+  all, temporary files go next to the destination -/
+  | noTmp
+  deriving DecidableEq, Repr
+
 /-- `renameio.tempDir`: oracle values of one mount probe. -/
 structure Probe where
   src : Path      -- test file in `os.TempDir()`
   dst : Path      -- test file next to the destination
   fd1 : Nat
   fd2 : Nat
-  same : Bool     -- the rename succeeded (same mount): temp files go to `os.TempDir()`
+  outcome : ProbeOutcome
   deriving DecidableEq, Repr
 
 /-- Successful syscalls of `tempDir`.  (When the rename fails with EXDEV the
 deferred removals run: destination-side file first, then the source.) -/
 def probeOps (pr : Probe) : List Sys :=
-  [.creat pr.src pr.fd1, .close pr.fd1, .creat pr.dst pr.fd2, .close pr.fd2] ++
-  (if pr.same then [.rename pr.src pr.dst, .unlink pr.dst] else [.unlink pr.dst, .unlink pr.src])
+  match pr.outcome with
+  | .sameMount =>
+    [.creat pr.src pr.fd1, .close pr.fd1, .creat pr.dst pr.fd2, .close pr.fd2,
+     .rename pr.src pr.dst, .unlink pr.dst]
+  | .otherMount =>
+    [.creat pr.src pr.fd1, .close pr.fd1, .creat pr.dst pr.fd2, .close pr.fd2,
+     .unlink pr.dst, .unlink pr.src]
+  | .noTmp => []
+
+/-- A save that cannot even create a file next to the destination (directory not
+writable): the probe's second file fails, its first is removed, and so does
+`openTempFile`; `NewPendingFile` returns the error. -/
+def startFail (pr : Probe) : List Sys :=
+  [.creat pr.src pr.fd1, .close pr.fd1, .unlink pr.src]
 
 /-- Everything up to (not including) the final rename of an atomic save. -/
 def stageOps (pr : Probe) (tmp : Path) (fd : Nat) (chunks : List Content) : List Sys :=
@@ -203,12 +226,15 @@ structure Save where
   chunks : List Content
   /-- `CloseReplace` (true) or `Cleanup` (false; filter update without change or with an error) -/
   commit : Bool
+  /-- the temporary file could be created (false: `startFail`) -/
+  started : Bool := true
   deriving DecidableEq, Repr
 
 def Save.new (sv : Save) : Content := sv.chunks.flatten
 
 def Save.prog (sv : Save) (dest : Path) : List Sys :=
-  if sv.commit then atomicWrite sv.pr dest sv.tmp sv.fd sv.chunks
+  if !sv.started then startFail sv.pr
+  else if sv.commit then atomicWrite sv.pr dest sv.tmp sv.fd sv.chunks
   else pendingAbort sv.pr sv.tmp sv.fd sv.chunks
 
 /-- Successive saves; each one runs until it completes or its first error. -/
